@@ -17,7 +17,10 @@ type CaseResult struct {
 	Deadlock   bool // synctest: root returned, blocked goroutines remain (somebody is stuck for ever)
 	Panic      string
 	PanicStack string
-	TimedOut   bool // real-time watchdog: inconclusive
+	TimedOut   bool // real-time watchdog: inconclusive, unless MutexStuck explains it
+	// MutexStuck: stacks of SUT goroutines of this case that sat in sync.Mutex.Lock when the watchdog fired
+	// (a goroutine waiting on a mutex is not durably blocked for synctest, so a self-deadlock shows up like this)
+	MutexStuck []string
 }
 
 // RunBubble runs f inside a fresh synctest bubble (virtual time, exact quiescence) on a goroutine
@@ -49,7 +52,13 @@ func RunBubble(t *testing.T, caseID string, watchdog time.Duration, f func()) Ca
 	case r := <-done:
 		return r
 	case <-tm.C:
-		return CaseResult{TimedOut: true}
+		res := CaseResult{TimedOut: true}
+		for _, g := range GoroutinesOf(caseID, "github.com/dgrr/http2.") {
+			if strings.Contains(g, "sync.(*Mutex).Lock") || strings.Contains(g, "sync.(*RWMutex)") {
+				res.MutexStuck = append(res.MutexStuck, g)
+			}
+		}
+		return res
 	}
 }
 
